@@ -244,6 +244,12 @@ class ModGen:
         else:
             self.emit("%s: int" % n)
 
+    def st_typealias(self):
+        # N3: `type X = ...` (3.12+) is a simple top-level statement binding X (a TypeAliasType object)
+        n = _anyname(self.rng, 0.15)
+        self.emit("type %s = %s" % (n, self.rng.choice(["int", "list[int]", "dict[str, 'X']", "int | None"])))
+        self.bind(n, "typealias")
+
     def st_foreign(self):
         rng, u = self.rng, self.u
         c = rng.randrange(11)
@@ -514,7 +520,7 @@ class ModGen:
         want_all = rng.random() < 0.42
         n_items = rng.randint(0, max_items)
         makers = [(self.st_def, 14), (self.st_async, 5), (self.st_class, 8), (self.st_assign, 14), (self.st_tuple, 6),
-                  (self.st_attr, 3), (self.st_shapes, 10), (self.st_del, 7), (self.st_ann, 6), (self.st_foreign, 12), (self.st_own, 12), (self.st_own_mix, 9), (self.st_cond, 7),
+                  (self.st_attr, 3), (self.st_shapes, 10), (self.st_del, 7), (self.st_ann, 6), (self.st_typealias, 3), (self.st_foreign, 12), (self.st_own, 12), (self.st_own_mix, 9), (self.st_cond, 7),
                   (self.st_other, 5)]
         if want_all:
             makers += [(self.st_all, 10), (self.st_all_aug, 6)]
@@ -709,5 +715,12 @@ def gen_env_case(rng, tag):
     if "otherlib_" in program and path_mode == "absent_nolib":
         path_mode = "after"
     preimport = (via == "lib" and path_mode == "first" and rng.random() < 0.5)
-    return dict(kind="env", env=dict(path_mode=path_mode, preimport=preimport, via=via), modname=S,
+    case = dict(kind="env", env=dict(path_mode=path_mode, preimport=preimport, via=via), modname=S,
                 projfiles=projfiles, libfiles=libfiles, program=program, reads=reads, files={}, targets=[], cli=False)
+    if not preimport and rng.random() < 0.45:
+        # N1: lib/first_c19.py star-imports ITS sibling lib/<S> and is rewritten first, in the same process (library) /
+        # the same `replace-star-imports --replace lib/first_c19.py proj/tool.py`; then proj/tool.py.  Every file
+        # must get the explicit list of the module next to IT.
+        case["env"]["prior"] = "lib"
+        case["priorprogram"] = "from %s import *\n\n_r = (%s,)\n" % (S, lib_only[0])
+    return case
